@@ -386,29 +386,33 @@ def getCmdState (D : Desc) (s : St) (i : Nat) : St × Nat :=
 def setCmdState (D : Desc) (s : St) (i : Nat) (v : Nat) : St :=
   setB D s .cmd (i / 4) (laneSet (getB D s .cmd (i / 4)) i v)
 
-def updateCommand (D : Desc) (s : St) : St × Int :=
-  let s := s.chkUb (s.index < D.commandsNum)
+/-- the match-state update of `update_command` for the command under the cursor -/
+def updateLane (D : Desc) (s : St) : St :=
   let c := (cmdByIndex D.groups s.index).getD default
   let (s, st) := getCmdState D s s.index
-  let s :=
-    if st != 0 then
-      let n := c.name.length
-      if s.length > n then setCmdState D s s.index 0
-      else if toUpper (c.name.getD (s.length - 1) 0) != s.currentChar then setCmdState D s s.index 0
-      else if s.length == n then
-        let s := setCmdState D s s.index 2
-        if c.implicitWrite then { s with implicitWriteFlag := true } else s
-      else s
+  if st != 0 then
+    let n := c.name.length
+    if s.length > n then setCmdState D s s.index 0
+    else if toUpper (c.name.getD (s.length - 1) 0) != s.currentChar then setCmdState D s s.index 0
+    else if s.length == n then
+      let s := setCmdState D s s.index 2
+      if c.implicitWrite then { s with implicitWriteFlag := true } else s
     else s
+  else s
+
+/-- the cursor advance at the end of `update_command` -/
+def updateAdvance (D : Desc) (s : St) : St :=
   let s := { s with index := s.index + 1 }
-  let s :=
-    if s.index ≥ D.commandsNum then
-      let s := { s with index := 0 }
-      if s.implicitWriteFlag == false then { s with state := .parseCommandChar }
-      else { prepareSearchCommand { s with cmdType := .write } with
-               state := .searchCommand, implicitWriteFlag := false }
-    else s
-  (s, Gen.CAT_STATUS_BUSY)
+  if s.index ≥ D.commandsNum then
+    let s := { s with index := 0 }
+    if s.implicitWriteFlag == false then { s with state := .parseCommandChar }
+    else { prepareSearchCommand { s with cmdType := .write } with
+             state := .searchCommand, implicitWriteFlag := false }
+  else s
+
+def updateCommand (D : Desc) (s : St) : St × Int :=
+  let s := s.chkUb (s.index < D.commandsNum)
+  (updateAdvance D (updateLane D s), Gen.CAT_STATUS_BUSY)
 
 def waitReadAcknowledge (s : St) (i : SvcIn) : St × Int :=
   let (s, got) := readCmdChar s i
